@@ -660,6 +660,15 @@ impl<'ast> Visit<'ast> for SiteVisitor<'_> {
         };
     }
 
+    /// `place = None`: the drop of whatever the place held (the listeners of the futures are `Option<EventListener>`
+    /// fields, and dropping a listener is an operation on the event's list).
+    fn visit_expr_assign(&mut self, a: &'ast syn::ExprAssign) {
+        syn::visit::visit_expr_assign(self, a);
+        if compact(&a.right) == "None" {
+            self.sites.push(Site { kind: "set_none".into(), recv: compact(&a.left), args: Vec::new(), ords: Vec::new() });
+        }
+    }
+
     fn visit_expr_await(&mut self, a: &'ast syn::ExprAwait) {
         self.visit_expr(&a.base);
         let site = self.await_site(&a.base.to_token_stream());
